@@ -1,32 +1,23 @@
-(* Entry point of the extracted runner: one request = opcode + one encoded argument value. *)
+(* Entry point of the extracted runner: one request = opcode + one encoded argument value.
+   Op 0 loads the live action catalogue; ops n*100 .. n*100+99 belong to property Cn (theories/Run/Rn.v). *)
 From Coq Require Import List Bool NArith ZArith.
-From PV Require Import Base.Str Base.Value Base.Wire Glob.Glob.
+From PV Require Import Base.Str Base.Value Base.Wire Run.RState.
+From PV Require Import Run.R08.
 Import ListNotations.
 Local Open Scope N_scope.
 
-Record rstate := { catalogue : list str }.
-Definition init : rstate := {| catalogue := [] |}.
+Definition BAD : value := VStr [66; 65; 68].
 
-Definition STAR : N := 42.
-Definition QM : N := 63.
-Definition glob_cs (p s : str) : bool := glob_match N N.eqb STAR QM p s.
-Definition glob_ci (p s : str) : bool := glob_match_ci N N.eqb STAR QM lower_cp p s.
-
-Definition strs_of (v : value) : list str :=
-  match v with
-  | VList l => flat_map (fun x => match x with VStr s => [s] | _ => [] end) l
-  | _ => []
+Definition dispatch (st : rstate) (op : N) (arg : value) : option (rstate * value) :=
+  match op / 100 with
+  | 8 => run08 st op arg
+  | _ => None
   end.
 
-Definition BAD : value := VStr [66;65;68].
-
 Definition run (st : rstate) (op : N) (arg : value) : rstate * value :=
-  match op, arg with
-  | 0, _ => ({| catalogue := strs_of arg |}, VInt (Z.of_nat (length (strs_of arg))))
-  | 1, VList [VStr p; VStr s] => (st, VBool (glob_cs p s))
-  | 2, VList [VStr p; VStr s] => (st, VBool (glob_ci p s))
-  | 3, VList [VStr p] => (st, VList (map VStr (filter (glob_ci p) (catalogue st))))
-  | _, _ => (st, BAD)
+  match op with
+  | 0 => ({| catalogue := strs_of arg |}, VInt (Z.of_nat (length (strs_of arg))))
+  | _ => match dispatch st op arg with Some r => r | None => (st, BAD) end
   end.
 
 Definition step (st : rstate) (req : list N) : rstate * list N :=
